@@ -260,6 +260,8 @@ const TMPLS: &[Tmpl] = &[
 const REPL: &[Option<&[u8]>] = &[
     Some(b"0"), Some(b"1"), Some(b"ffffffff"), Some(b"ffffffffffffffff"), Some(b"fffffffffffffffff"), Some(b"4294967295"), Some(b"4294967296"),
     Some(b"zz"), Some(b""), Some(b"\xff\xfe"), Some(b"-1"), None,
+    // digit strings past every accumulator: 2^64, 20 nines, 30 digits, 40 hex digits
+    Some(b"18446744073709551616"), Some(b"99999999999999999999"), Some(b"123456789012345678901234567890"), Some(b"ffffffffffffffffffffffffffffffffffffffff"),
 ];
 const TERMS: &[&[u8]] = &[b"\n", b"\r\n", b"\r\r\n", b""];
 
@@ -579,7 +581,7 @@ fn main() {
         let mut def = CheckDef::new(
             "C09",
             "fault_enumeration",
-            "every case = one byte string parsed by the real SymbolFile::parse through a counting reader/callback (window oracle at every read) and by from_bytes, under panic guard / wall budget / allocation cap. Spaces: all strings of length <= 3 alone and after MODULE; 15 record templates x {0,1,2} fields replaced from a 12-token boundary menu x 4 terminators; all sequences of <= depth lines over 33 record shapes; every single-byte replacement and deletion of a valid 19-line file; real-constant long lines (content lengths around 10/20/40/80/160 KiB and over MAX — listed under long_line_content_lengths — x 6 kinds x 4 prefixes x 5 suffixes x LF/CRLF x 3 (thorough: 6) read chunkings) with the dropped-line equality oracle. distinct_nontrivial = distinct (part, outcome + table shape or error text) keys.",
+            "every case = one byte string parsed by the real SymbolFile::parse through a counting reader/callback (window oracle at every read) and by from_bytes, under panic guard / wall budget / allocation cap. Spaces: all strings of length <= 3 alone and after MODULE; 15 record templates x {0,1,2} fields replaced from a 16-token boundary menu x 4 terminators; all sequences of <= depth lines over 33 record shapes; every single-byte replacement and deletion of a valid 19-line file; real-constant long lines (content lengths around 10/20/40/80/160 KiB and over MAX — listed under long_line_content_lengths — x 6 kinds x 4 prefixes x 5 suffixes x LF/CRLF x 3 (thorough: 6) read chunkings) with the dropped-line equality oracle. distinct_nontrivial = distinct (part, outcome + table shape or error text) keys.",
         );
         def.assumptions = vec![
             "C09 only requires 'returns Ok or Err' for input without a final newline: outcomes are not compared across read chunkings (that is C10 / F8)".into(),
